@@ -20,9 +20,14 @@
 //   (3) tallies (SimpleCalo energy per detector, ActionDiagnostic and StepDiagnostic counts,
 //       cleared before the event)
 // that are bit-identical to the same event on a FRESH state with the same number of track slots
-// and TrackOrder::none, no timing, no status checker.
-// Configuration lattice: re-indexing track order {none + the 6 re-indexing orders} x
-// action_times {off,on} x StatusChecker {off,on} x slots {1,2,8} x along-step {linear+msc+fluct,
+// and TrackOrder::none, no timing, no status checker (init_charge: a fresh state with
+// init_charge - its slot assignment differs, what is decided is the independence of the history).
+// After histories of length <= 1 the probes E0,E1,E2 are followed by two events whose
+// UniqueEventId differs from the EventId of their primaries: E0u5 (event 0, reseed(5)) and E2u0
+// (event 2, reseed(0)), each against its own fresh-state reference.
+// Configuration lattice: track order {none + the 6 re-indexing orders + init_charge} x
+// action_times {off,on} x StatusChecker {off,on} x slots {1,2,4,8} (4 on g1 only: the tie
+// "primaries of the event == slots") x along-step {linear+msc+fluct,
 // field+msc+fluct} x geometry {g1 box-in-box (one universe), g3 rotated daughter universe (two
 // levels; primaries start in the daughter's sphere and cylinder and in a world-level ball)}.
 // With a field every event has a 4th primary: a 0.2 MeV e- in the vacuum world perpendicular to
@@ -159,13 +164,14 @@ struct Op
     unsigned event;
     unsigned steps;  // A: Stepper calls; X: n
     char const* where;  // X: "post" | "start" | "int"
+    int unique{-1};  // E: UniqueEventId handed to reseed() when it differs from the event id
     std::string str() const
     {
         switch (kind)
         {
             case 'W': return "W";
             case 'V': return "V";
-            case 'E': return fmt("E%u", event);
+            case 'E': return unique < 0 ? fmt("E%u", event) : fmt("E%uu%d", event, unique);
             case 'A': return fmt("A%u.%u", event, steps);
             default: return fmt("X%u.%u.%s", event, steps, where);
         }
@@ -196,7 +202,7 @@ static void clear_tallies(LoopProblem& P)
 // abort: nullptr, or the X operation to arm
 static bool run_on(LoopProblem& P, Stepper<MemSpace::host>& st, unsigned e, unsigned max_steps,
                    EventObs* obs, std::string* err, Op const* abort = nullptr,
-                   bool* abort_fired = nullptr)
+                   bool* abort_fired = nullptr, int unique = -1)
 {
     P.recorder->steps.clear();
     HashChooser ch;
@@ -227,7 +233,7 @@ static bool run_on(LoopProblem& P, Stepper<MemSpace::host>& st, unsigned e, unsi
     try
     {
         clear_tallies(P);
-        st.reseed(UniqueEventId{e});
+        st.reseed(UniqueEventId{unique < 0 ? e : unsigned(unique)});
         auto prim = event_primaries(P, e, e);
         StepperResult r = st(make_span(prim));
         push(r);
@@ -304,22 +310,30 @@ int main(int argc, char** argv)
                                       TrackOrder::reindex_particle_type,
                                       TrackOrder::reindex_along_step_action,
                                       TrackOrder::reindex_step_limit_action,
-                                      TrackOrder::reindex_both_action};
+                                      TrackOrder::reindex_both_action,
+                                      TrackOrder::init_charge};
     std::vector<CfgCase> cfgs;
     for (auto o : orders)
         for (bool times : {false, true})
             for (bool chk : {false, true})
-                for (unsigned s : {1u, 2u, 8u})
+                for (unsigned s : {1u, 2u, 4u, 8u})
                     for (auto a : {AlongStep::linear_msc_fluct, AlongStep::field_msc_fluct})
                         for (int g : {1, 3})
                         {
+                            // slots 4 = the tie "primaries == slots" (linear: event 2 has 4,
+                            // event 1 one fewer, event 0 one more; field: event 1 has 4): g1 only
+                            if (s == 4 && g != 1)
+                                continue;
+                            // init_charge (own reference, see below): 2 slots on g1 in quick
+                            if (o == TrackOrder::init_charge && !thorough && !(g == 1 && s == 2))
+                                continue;
                             if (!thorough)
                             {
                                 if (times != chk)
                                     continue;  // quick: (off,off) and (on,on)
-                                // quick: (field, g1, slots 1|2|8), (linear, g1, slots 2),
+                                // quick: (field, g1, slots 1|2|4|8), (linear, g1, slots 2|4),
                                 // (linear, g3, slots 2), (field, g3, slots 2)
-                                bool keep = (has_field(a) && g == 1) || s == 2;
+                                bool keep = (has_field(a) && g == 1) || s == 2 || s == 4;
                                 if (!keep)
                                     continue;
                             }
@@ -369,14 +383,24 @@ int main(int argc, char** argv)
             cfg.step_diagnostic = true;
             return make_loop_problem(cfg);
         };
-        // reference: fresh state, TrackOrder::none, no timing, no checker
-        auto Pref = make(TrackOrder::none, false);
-        EventObs ref[3];
-        for (unsigned e = 0; e < 3; ++e)
+        // reference: fresh state, TrackOrder::none, no timing, no checker.  init_charge
+        // assigns the slots (hence the per-slot RNG stream of a track) differently from every
+        // other order, so its reference is a fresh state with init_charge: what is decided for
+        // it is the independence of the HISTORY (init.indices / init.parents survive in the
+        // state and CoreState::reset() touches neither), not of the order
+        TrackOrder const ref_order
+            = cc.order == TrackOrder::init_charge ? TrackOrder::init_charge : TrackOrder::none;
+        auto Pref = make(ref_order, false);
+        // ref[3], ref[4]: UniqueEventId != EventId (Geant4 integration: every event is event 0
+        // with a changing unique id): (event 0, unique 5) and (event 2, unique 0)
+        static Op const crossed[2] = {{'E', 0, 0, "", 5}, {'E', 2, 0, "", 0}};
+        EventObs ref[5];
+        for (unsigned e = 0; e < 5; ++e)
         {
             auto st = Pref->make_stepper();
             std::string err;
-            if (!run_on(*Pref, *st, e, 100000, &ref[e], &err))
+            if (!run_on(*Pref, *st, e < 3 ? e : crossed[e - 3].event, 100000, &ref[e], &err, nullptr,
+                        nullptr, e < 3 ? -1 : crossed[e - 3].unique))
                 R.harness_error("reference event does not complete: " + err);
             R.maxi("max_steps_per_event", ref[e].nrec);
             R.maxi("max_stepper_calls_per_event", ref[e].ncalls);
@@ -442,8 +466,16 @@ int main(int argc, char** argv)
                 if (i < h.size())
                     ops.push_back(alphabet[h[i]]);
                 else
+                {
                     for (unsigned e : {0u, 1u, 2u})
                         ops.push_back({'E', e, 0, ""});
+                    // crossed ids after the plain probes (event 0 under unique id 5 follows an
+                    // event 0, event 2 under unique id 0 follows an event 2): histories of
+                    // length <= 1 only
+                    if (h.size() <= 1)
+                        for (auto const& x : crossed)
+                            ops.push_back(x);
+                }
                 for (auto const& op : ops)
                 {
                     R.count("transitions");
@@ -554,8 +586,11 @@ int main(int argc, char** argv)
                         continue;
                     }
                     EventObs got;
-                    bool done = run_on(*P, *st, op.event, 100000, &got, &err);
+                    bool done = run_on(*P, *st, op.event, 100000, &got, &err, nullptr, nullptr,
+                                       op.unique);
                     R.count("events_compared");
+                    if (op.unique >= 0)
+                        R.count("crossed_id_events_compared");
                     if (!done || !err.empty())
                     {
                         R.violation("repro:event-does-not-complete", cid,
@@ -564,7 +599,8 @@ int main(int argc, char** argv)
                         ok = false;
                         break;
                     }
-                    EventObs const& want = ref[op.event];
+                    EventObs const& want
+                        = ref[op.unique < 0 ? op.event : (op.event == crossed[0].event ? 3 : 4)];
                     bool const first = h.empty() && i == h.size() && op.event == 0;
                     auto report = [&](char const* what_sig, char const* what_txt) {
                         std::string sig = first ? fmt("repro:first-%s-differs-from-reference-"
@@ -572,12 +608,13 @@ int main(int argc, char** argv)
                                                       what_sig)
                                                 : fmt("repro:%s-differs-from-fresh-state", what_sig);
                         R.violation(fmt("%s[order=%d]", sig.c_str(), int(cc.order)), cid,
-                                    fmt("%s: event %u transported after history [%s] (position %zu) "
+                                    fmt("%s: event %s transported after history [%s] (position %zu) "
                                         "has a different %s than on a fresh state with "
-                                        "TrackOrder::none (%zu steps recorded in %zu Stepper calls; "
+                                        "TrackOrder::%s (%zu steps recorded in %zu Stepper calls; "
                                         "reference %zu in %zu)",
-                                        cc.id.c_str(), op.event, hid.c_str(), i, what_txt, got.nrec,
-                                        got.ncalls, want.nrec, want.ncalls));
+                                        cc.id.c_str(), op.str().c_str(), hid.c_str(), i, what_txt,
+                                        ref_order == TrackOrder::none ? "none" : "init_charge",
+                                        got.nrec, got.ncalls, want.nrec, want.ncalls));
                         ok = false;
                     };
                     if (got.tracks != want.tracks)
